@@ -287,6 +287,8 @@ pub struct OrdGen {
     pub fill_target: Option<usize>,
     pub fill_pct: u64,
     pub pending: std::collections::VecDeque<Op>,
+    pub forced_clear_at: Option<usize>,
+    pub generated: usize,
 }
 
 const W_INS: usize = 0;
@@ -353,7 +355,7 @@ impl OrdWorld {
     }
 
     fn default_gen() -> OrdGen {
-        OrdGen { w: [10, 5, 5, 2, 1, 1, 1, 0, 0, 0, 0, 1, 0, 1], key_pattern: 0, del_w: [1; 8], max_pop: 32, last_key: 0, zig: false, order: Vec::new(), walk_after_mut: false, fill_target: None, fill_pct: 0, pending: std::collections::VecDeque::new() }
+        OrdGen { w: [10, 5, 5, 2, 1, 1, 1, 0, 0, 0, 0, 1, 0, 1], key_pattern: 0, del_w: [1; 8], max_pop: 32, last_key: 0, zig: false, order: Vec::new(), walk_after_mut: false, fill_target: None, fill_pct: 0, pending: std::collections::VecDeque::new(), forced_clear_at: None, generated: 0 }
     }
 
     fn draw_gen(cfg: &Cfg, r: &mut Rng) -> OrdGen {
@@ -420,6 +422,9 @@ impl OrdWorld {
         g.fill_pct = *r.pick(&[0, 0, 25, 50, 100]);
         if r.below(100) < g.fill_pct / 2 {
             g.fill_target = Some(Self::draw_fill_target(cfg, r));
+        }
+        if cfg.has(O_TWIN) {
+            g.forced_clear_at = Some(r.below(12) as usize);
         }
         g.last_key = cfg.key_lo + r.below(cfg.universe.max(1) as u64) as i32;
         g
@@ -1246,6 +1251,13 @@ impl World for OrdWorld {
     }
 
     fn gen(&mut self, r: &mut Rng, _ctx: &mut RunCtx, _remaining: usize) -> Op {
+        self.gen.generated += 1;
+        if self.gen.forced_clear_at == Some(self.gen.generated - 1) {
+            if r.below(100) < self.gen.fill_pct {
+                self.gen.fill_target = Some(Self::draw_fill_target(&self.cfg, r));
+            }
+            return Op::OClear;
+        }
         while let Some(op) = self.gen.pending.pop_front() {
             if self.legal(&op) {
                 return op;
